@@ -25,6 +25,41 @@ CHECKS = {
          "Every small PepXML document structure is model-checked and rendered to real XML; the rows returned by read_pepxml(to_df=True) are accepted by TLC iff they equal the declarative row list (one PSM per hit in order, spectrum attributes, file name, modified peptide, proteins, label, scores); error paths must raise.",
          "Trusted: TLC, the driver's XML rendering, values chosen outside the log-transform heuristics. Files without any search hit are outside the quantifier.",
          "DESIGN.md §3 C20"),
+ "C02": ("model_checking",
+         "TLC model checking of Brew.tla (split/train sets/cap/thread pools/sort by fold/routing/chunked predict vs partition, spectrum closure, no leak) + TLC trace validation (BrewTrace.tla) of fit/predict events recorded from the real brew() on every TLC-enumerated dataset shape",
+         "The implementation-shaped model of brew() is checked for every dataset shape within the bounds, every hash order, cap subset, chunk size and completion order of the thread pools; TLC then enumerates every shape inside the fold construction's domain for folds 2..4 (thorough 2..6), the driver runs the real brew() with a recording Model subclass (key width 1..4, 1-2 files, cap, workers 1..4 with enforced completion orders, chunk sizes, formats, seeds, recording/memorising/real learners) and TLC accepts the recorded fit/predict events iff the finally scored sets form a spectrum-closed partition into exactly `folds` parts and no model's training rows share a spectrum with the rows it scores (subset of the complement under a cap, equal to it otherwise).",
+         "Trusted: TLC, the recording Model subclass (public Model API; deepcopy keeps it), interposition on brew._create_psms to see training sets the constructor rejects. Domain boundary B-02 (no spectrum larger than rows div folds). Runs that return the untrained fallback are C07's business.",
+         "DESIGN.md §3 C02"),
+ "C11": ("model_checking",
+         "TLC model checking of Calib.tla (labels, lowest accepted target, decoy median, affine map vs order preservation/anchors/error rule) + TLC trace validation of direct calibrate_scores calls (CalibTrace.tla) on every TLC-enumerated vector and of brew() runs (BrewTrace.tla clauses Calibrated/CalibError)",
+         "Every small (raw vector, labelling, threshold) is model-checked and executed on the real calibration functions; dataset-level runs through brew() (folds 2..6, five thresholds, estimators with and without a decision function) are validated per fold: the returned score of every row equals (raw - t)/(t - d) exactly, with t, d recomputed by TLC from the recorded raw outputs, and a fold without an accepted target must stop the run with RuntimeError.",
+         "Trusted: TLC, integer raw scores from the recording estimator (exact rationals). Folds with t <= d or without decoys are outside the stated domain and skipped.",
+         "DESIGN.md §3 C11"),
+ "C13": ("model_checking",
+         "TLC model checking of TabularRead.tla / TabularWrite.tla (chunk iterators, Parquet index arithmetic, BufferedWriter flush loop, finalize) + TLC trace validation (TabularTrace.tla) of chunks / inner writes / read-backs recorded from the real readers and writers on TLC-generated configurations and behaviours",
+         "Reader configurations (rows, chunk, row group, reader kind, column subset/order) and writer behaviours (append sequences, buffer size/kind) are generated by TLC, executed on the real classes (CSV, Parquet, frame, renamed, joined, computed; CSV/Parquet/buffered writers with a recording inner writer) and accepted by TLC iff chunks concatenate to the whole with continuing index and requested column order, resp. the read-back equals the appended rows.",
+         "Trusted: TLC, pyarrow full-batch behaviour (ASSUME, tested with every row-group size), value comparison after the declared dtype. Known finding F-13a (joined reader with an empty sub-request).",
+         "DESIGN.md §3 C13"),
+ "C14": ("model_checking",
+         "TLC model checking of Merge.tla (both merge implementations, sortedness guard, asc/desc) + TLC trace validation (MergeTrace.tla) of outputs recorded from merge_sort / MergedTabularDataReader / merge_readers on every TLC-enumerated input family",
+         "All input families (1..3 inputs x 1..3 rows x ranks 1..3 with ties, sorted and unsorted; thorough 4 inputs) are model-checked and merged by the real code (text and Parquet, chunk sizes 1..N+1); TLC accepts iff every row appears exactly once, unmodified, globally sorted, and unsorted input to the table merger raises.",
+         "Trusted: TLC, dyadic scores. merge_sort is driven with descending-sorted inputs only (it has no guard and no ascending mode).",
+         "DESIGN.md §3 C14"),
+ "C16": ("model_checking",
+         "TLC model checking of ProteinGroups.tla (largest-first grouping with in-place renaming, unique/shared split, decoy pairing, all visiting and hash iteration orders vs declarative clauses and EqualsCanonical) + TLC trace validation (ProteinGroupsTrace.tla) of the maps returned by the real read_fasta for every TLC-enumerated incidence structure",
+         "Every protein x peptide incidence (3x3 quick, 4x4 thorough) is model-checked, rendered as FASTA (entry orders, decoy styles, digest parameters, hash seeds in sub-processes) and the maps returned by read_fasta are accepted by TLC iff they satisfy the statement's clauses and agree across runs.",
+         "Trusted: TLC, the FASTA rendering (digest behaviour is C17's). FASTA without any target peptide is out of domain.",
+         "DESIGN.md §3 C16"),
+ "C17": ("model_checking",
+         "TLC model checking of Digest.tla (site list with duplicates, double loop, clip, semi vs declarative set comprehension; monotonicity) + TLC trace validation (DigestTrace.tla) of mokapot.digest on every TLC-enumerated (sequence, enzyme) x parameter grid",
+         "All sequences up to length 5 (7 thorough) over a 4-letter alphabet x 5 enzymes (incl. look-ahead/look-behind) are model-checked and digested by the real code under a 128-setting parameter grid; TLC recomputes the declarative digest for each recorded call and compares peptide sets, substring property and monotonicity pairs.",
+         "Trusted: TLC, enzyme regex <-> residue predicate mapping. Domain: min_length >= 1, max_length >= min_length.",
+         "DESIGN.md §3 C17"),
+ "C18": ("model_checking",
+         "TLC model checking of Decoys.tla (peptide-interior permutation/reversal, file layer with wrapping and re-read vs ValidDecoy/ValidFile) + TLC trace validation (DecoysTrace.tla) of files written by the real make_decoys for every TLC-enumerated FASTA input",
+         "All small FASTA inputs (sequences up to length 5, 7 thorough; shuffle/reverse, concat on/off, enzymes) are model-checked and run through the real make_decoys with several RNG states; the written file, parsed by an independent reader, is accepted by TLC iff every decoy is a valid decoy of its target (relation, not function), targets precede decoys unchanged, and re-reading recovers names and sequences.",
+         "Trusted: TLC, the driver's independent FASTA reader. Well-formed FASTA only.",
+         "DESIGN.md §3 C18"),
 }
 PENDING = {}   # id -> reason (not_applicable)
 
